@@ -259,7 +259,7 @@ def run_batch(cmd, requests, hang_s=5.0, env=None, mem_kb=4_000_000, label="", m
             for i in range(start, n):
                 replies[i] = "skipped (too many hangs/crashes in this batch)"
             break
-        pre = "ulimit -v %d; exec " % mem_kb
+        pre = "ulimit -s unlimited 2>/dev/null || ulimit -s 1000000 2>/dev/null; ulimit -v %d; exec " % mem_kb
         p = subprocess.Popen(["bash", "-c", pre + " ".join(map(_q, cmd))], stdin=subprocess.PIPE,
                              stdout=subprocess.PIPE, stderr=subprocess.PIPE, env=env)
         os.set_blocking(p.stdout.fileno(), False)
